@@ -5,6 +5,7 @@ import Storrent.Lemmas.ChunkArith
 import Storrent.Lemmas.PeerOutLemmas
 import Storrent.Lemmas.RequestsInv
 import Storrent.Lemmas.PexEmbed
+import Storrent.Lemmas.PexFeedLemmas
 /-
 C11 — Everything storrent sends to a peer is protocol-conformant.
 Theorems about the models of Model/{PeerOut,Requests,Pex,PeerBitmap}.lean (the repaired code:
@@ -332,6 +333,149 @@ example :
     pexMsgs (trace { pexExt := 1 } [.ePex true [⟨[10, 0, 0, 1], 6881, 0⟩], .sendPex,
       .ePex false [⟨[10, 0, 0, 1], 6881, 0⟩], .sendPex]) =
       [([⟨[10, 0, 0, 1], 6881, 0⟩], []), ([], [⟨[10, 0, 0, 1], 6881, 0⟩])] := by decide
+
+/-! ### the torrent-side feeding of PEX -/
+
+/-- **C11_pex_feed_balanced.**  For every history of connections joining (dialled or
+    incoming), sending extended handshakes with any advertised port (a second one makes the
+    peer close) and leaving in any order: what an observer connected all along has been told
+    (adds minus drops, as a set) is exactly the set of `(connection, port)` of the connections
+    that are still there and whose port is known.  So every address announced for a
+    connection is withdrawn — the SAME address — when it leaves; when everybody has left the
+    observer holds nothing; and (second part) nothing is ever dropped that the observer does
+    not hold. -/
+theorem C11_pex_feed_balanced (ops : List PexFeed.Op) :
+    (∀ x, x ∈ PexFeed.view [] (PexFeed.run {} ops).2 ↔
+      ∃ p, p ∈ (PexFeed.run {} ops).1.peers ∧ p.port > 0 ∧ x = (p.id, p.port)) ∧
+    ((PexFeed.run {} ops).1.peers = [] → PexFeed.view [] (PexFeed.run {} ops).2 = []) ∧
+    (∀ op i p, PexFeed.Ev.del i p ∈ (PexFeed.step (PexFeed.run {} ops).1 op).2 →
+      (i, p) ∈ PexFeed.view [] (PexFeed.run {} ops).2) := by
+  have hI := PexFeed.FInv_run ops {} [] PexFeed.FInv_init
+  refine ⟨hI.vw, ?_, fun op i p h => (PexFeed.FInv_step hI op).2 i p h⟩
+  intro hnil
+  apply List.eq_nil_iff_forall_not_mem.2
+  intro x hx
+  obtain ⟨p, hp, _⟩ := (hI.vw x).1 hx
+  rw [hnil] at hp
+  cases hp
+
+-- non-vacuity: a dialled connection whose handshake advertises another port (ignored), an
+-- incoming one that advertises its port, a second handshake, departures
+example :
+    (PexFeed.run {} [.join 1 6881 false, .join 2 0 true, .ext0 1 9001, .ext0 2 7002,
+      .ext0 2 7002, .leave 1]).2 =
+      [.add 1 6881 16, .add 1 6881 16, .add 2 7002 0, .del 2 7002, .del 1 6881] := by decide
+
+/-- how the observer's `pexState` is fed: `PeerPex` additions / removals under the
+    connection's address (`ip` maps a connection to its IP address) -/
+def toPex (ip : Nat → Bytes) : PexFeed.Ev → Pex.Op
+  | .add id port fl => .add ⟨ip id, port, fl⟩
+  | .del id port => .del ⟨ip id, port, 0⟩
+
+def notSend : Pex.Op → Bool
+  | .send _ => false
+  | _ => true
+
+theorem aview_filter : ∀ (pops : List Pex.Op) (v : List Addr),
+    aview v pops = aview v (pops.filter notSend)
+  | [], v => rfl
+  | op :: pops, v => by
+    cases op <;> simp only [aview, List.filter_cons, notSend, if_true, Bool.false_eq_true, if_false,
+      aview_filter pops]
+
+theorem mem_aview_add {v : List Addr} {p : PexPeer} {a : Addr} :
+    a ∈ aview v [.add p] ↔ a ∈ v ∨ a = addrOf p := by
+  simp only [aview]
+  split
+  · rename_i hc
+    have := List.contains_iff_mem.1 hc
+    constructor
+    · exact Or.inl
+    · rintro (h | rfl)
+      · exact h
+      · exact this
+  · simp only [List.mem_cons]
+    constructor
+    · rintro (h | h)
+      · exact Or.inr h
+      · exact Or.inl h
+    · rintro (h | h)
+      · exact Or.inr h
+      · exact Or.inl h
+
+theorem mem_aview_del {v : List Addr} {p : PexPeer} {a : Addr} :
+    a ∈ aview v [.del p] ↔ a ∈ v ∧ a ≠ addrOf p := by
+  simp [aview, List.mem_filter]
+
+theorem aview_toPex (ip : Nat → Bytes) (hinj : ∀ a b, ip a = ip b → a = b) :
+    ∀ (evs : List PexFeed.Ev) (v : List (Nat × Nat)) (v' : List Addr),
+    (∀ a, a ∈ v' ↔ ∃ x, x ∈ v ∧ a = (ip x.1, x.2)) →
+    ∀ a, a ∈ aview v' (evs.map (toPex ip)) ↔ ∃ x, x ∈ PexFeed.view v evs ∧ a = (ip x.1, x.2)
+  | [], v, v', h => h
+  | e :: evs, v, v', h => by
+    have e1 : aview v' ((e :: evs).map (toPex ip)) =
+        aview (aview v' [toPex ip e]) (evs.map (toPex ip)) := aview_append [toPex ip e] v' _
+    have e2 : PexFeed.view v (e :: evs) = PexFeed.view (PexFeed.view v [e]) evs :=
+      PexFeed.view_append [e] v evs
+    rw [e1, e2]
+    apply aview_toPex ip hinj evs
+    intro a
+    cases e with
+    | add id port fl =>
+      simp only [toPex]
+      rw [mem_aview_add, h a]
+      constructor
+      · rintro (⟨x, hx, rfl⟩ | rfl)
+        · exact ⟨x, PexFeed.mem_view_add.2 (Or.inl hx), rfl⟩
+        · exact ⟨(id, port), PexFeed.mem_view_add.2 (Or.inr rfl), rfl⟩
+      · rintro ⟨x, hx, rfl⟩
+        rcases PexFeed.mem_view_add.1 hx with hx | rfl
+        · exact Or.inl ⟨x, hx, rfl⟩
+        · exact Or.inr rfl
+    | del id port =>
+      simp only [toPex]
+      rw [mem_aview_del, h a]
+      constructor
+      · rintro ⟨⟨x, hx, rfl⟩, hne⟩
+        refine ⟨x, PexFeed.mem_view_del.2 ⟨hx, ?_⟩, rfl⟩
+        intro e
+        apply hne
+        rw [e]; rfl
+      · rintro ⟨x, hx, rfl⟩
+        obtain ⟨hx1, hx2⟩ := PexFeed.mem_view_del.1 hx
+        refine ⟨⟨x, hx1, rfl⟩, ?_⟩
+        intro e
+        simp only [addrOf, Prod.mk.injEq] at e
+        apply hx2
+        exact Prod.ext (hinj _ _ e.1) e.2
+
+/-- **C11_pex_feed_composed.**  The feed composed with the PEX machine: let the observer's
+    `pexState` be fed with exactly the events of a feed history (ticks, successful or failed,
+    interleaved in any way).  Whenever it has nothing pending, what its remote knows is exactly
+    the set of addresses of the connections that are still there (port known): no departed
+    peer stays announced, under any address. -/
+theorem C11_pex_feed_composed (ip : Nat → Bytes) (hinj : ∀ a b, ip a = ip b → a = b)
+    (fops : List PexFeed.Op) (pops : List Pex.Op)
+    (hfeed : pops.filter notSend = (PexFeed.run {} fops).2.map (toPex ip))
+    (hflush : (Pex.run {} pops).1.st.pending = [] ∧ (Pex.run {} pops).1.st.pendingDel = []) :
+    ∀ a, a ∈ (Pex.run {} pops).1.rk ↔
+      ∃ p, p ∈ (PexFeed.run {} fops).1.peers ∧ p.port > 0 ∧ a = (ip p.id, p.port) := by
+  intro a
+  have hI := pex_run_inv pops {} PInv_init
+  have hT := Tracks_run pops {} [] PInv_init (by intro a; simp [addrs])
+  have hv := aview_toPex ip hinj (PexFeed.run {} fops).2 [] [] (by intro a; simp) a
+  have hb := (C11_pex_feed_balanced fops).1
+  rw [hI.rk a, hflush.2]
+  have h1 := hT a
+  rw [hflush.1] at h1
+  simp only [addrs, List.map_nil, List.not_mem_nil, or_false] at h1 ⊢
+  rw [h1, aview_filter, hfeed, hv]
+  constructor
+  · rintro ⟨x, hx, rfl⟩
+    obtain ⟨p, hp, hpos, rfl⟩ := (hb x).1 hx
+    exact ⟨p, hp, hpos, rfl⟩
+  · rintro ⟨p, hp, hpos, rfl⟩
+    exact ⟨(p.id, p.port), (hb _).2 ⟨p, hp, hpos, rfl⟩, rfl⟩
 
 /-! ## The initial advertisement -/
 
